@@ -416,7 +416,13 @@ func c34Exec(t *testing.T) func(hist []c34Op) vsched.StepResult {
 				obs = o.String() + "->[" + c34Show(evs) + "]"
 			}
 			canon := c34Canon(cl, m, time.Now())
-			res = vsched.StepResult{Canon: canon, Obs: obs + " " + canon, Violations: viol}
+			// observation = last notification with the events it caused + filters and pending sets
+			// (the prefix of the canonical dump; coarser so that the distinct sets stay small)
+			short := canon
+			if k := strings.Index(canon, " je["); k > 0 {
+				short = canon[:k]
+			}
+			res = vsched.StepResult{Canon: canon, Obs: obs + " " + short, Violations: viol}
 			// let the armed overdue timers fire so that the bubble ends without pending work; what
 			// they emit is monitored as well (it is what advance(T) would produce next)
 			time.Sleep(nodeLeftEmitTimeout)
@@ -451,7 +457,7 @@ func TestVerifC34(t *testing.T) {
 		depth  int
 	}{
 		{"events-3peers-3epochs", c34Peers(), 3, true, vsched.Pick(5, 7)},
-		{"events-2peers-2epochs-deeper", []string{c34Self, c34A}, 2, false, vsched.Pick(6, 8)},
+		{"events-2peers-2epochs-deeper", []string{c34Self, c34A}, 2, false, vsched.Pick(6, 9)},
 	} {
 		alpha := c34Alphabet(sc.peers, sc.epochs, sc.self)
 		var names, peers []string
